@@ -205,4 +205,173 @@ theorem mk_invalid_date (year m d h mi s us : Int) (tz : Option Int) (hy : year 
     simp only []
     rw [hfields]; rfl
 
+/-- what a successful `mkCore` says about its arguments -/
+theorem mkCore_ok_inv (y m d h mi s us : Int) (ad : Bool) (tz : Option Int) (w : DT)
+    (hw : mkCore y m d h mi s us ad tz = .ok w) :
+    y ≠ 0 ∧ y.natAbs ≤ 2 ^ 31 ∧ pyFieldsOk (proxyLeap y) m d h mi s us = true := by
+  unfold mkCore at hw
+  by_cases hr : 1 ≤ y ∧ y ≤ 9999
+  · rw [if_pos hr] at hw
+    have hl : isleap y = proxyLeap y := by unfold proxyLeap; rw [if_neg (by omega)]
+    rw [hl] at hw
+    by_cases hf : pyFieldsOk (proxyLeap y) m d h mi s us = true
+    · exact ⟨by omega, by omega, hf⟩
+    · have : pyFieldsOk (proxyLeap y) m d h mi s us = false := by simpa using hf
+      rw [this] at hw; simp at hw
+  · rw [if_neg hr] at hw
+    by_cases h0 : y = 0
+    · rw [if_pos h0] at hw; cases hw
+    · rw [if_neg h0] at hw
+      by_cases hb : y.natAbs > 2 ^ 31
+      · rw [if_pos hb] at hw; cases hw
+      · rw [if_neg hb] at hw
+        simp only [] at hw
+        by_cases hf : pyFieldsOk (proxyLeap y) m d h mi s us = true
+        · exact ⟨h0, by omega, hf⟩
+        · have : pyFieldsOk (proxyLeap y) m d h mi s us = false := by simpa using hf
+          rw [this] at hw; simp at hw
+
+theorem pyFieldsOk_inv (lp : Bool) (m d h mi s us : Int) (hf : pyFieldsOk lp m d h mi s us = true) :
+    1 ≤ m ∧ m ≤ 12 ∧ 1 ≤ d ∧ d ≤ monthDays lp m ∧ 0 ≤ h ∧ h ≤ 23 ∧ 0 ≤ mi ∧ mi ≤ 59 ∧ 0 ≤ s ∧ s ≤ 59 ∧ 0 ≤ us ∧ us ≤ 999999 := by
+  unfold pyFieldsOk at hf; simpa using hf
+
+theorem ofLocal_valid (t : Int) (tz : Option Int) : (Timeline.ofLocal t tz).Valid ∧ (Timeline.ofLocal t tz).tz = tz := by
+  unfold Timeline.ofLocal
+  have c := Timeline.civil_spec (t / Timeline.US)
+  generalize Timeline.civil (t / Timeline.US) = p at c
+  obtain ⟨a, m, d⟩ := p
+  simp only at c ⊢
+  refine ⟨⟨c.1, c.2.1, c.2.2.1, c.2.2.2.1, ?_, ?_⟩, trivial⟩ <;> simp only [Timeline.US] <;> omega
+
+theorem ofFields_valid (a m d h mi s us : Int) (tz : Option Int) (hm : 1 ≤ m ∧ m ≤ 12) (hd : 1 ≤ d ∧ d ≤ monthLen a m)
+    (ht : (0 ≤ h ∧ h ≤ 23 ∧ 0 ≤ mi ∧ mi ≤ 59 ∧ 0 ≤ s ∧ s ≤ 59 ∧ 0 ≤ us ∧ us ≤ 999999) ∨ (h = 24 ∧ mi = 0 ∧ s = 0 ∧ us = 0)) :
+    (Timeline.ofFields a m d h mi s us tz).Valid ∧ (Timeline.ofFields a m d h mi s us tz).tz = tz := by
+  unfold Timeline.ofFields
+  split
+  · exact ofLocal_valid _ tz
+  · rename_i h24
+    rcases ht with ⟨h0, h23, a1, a2, b1, b2, c1, c2⟩ | ⟨h24', _⟩
+    · refine ⟨⟨hm.1, hm.2, hd.1, hd.2, ?_, ?_⟩, rfl⟩ <;> simp only [Timeline.US] <;> omega
+    · exact absurd h24' h24
+
+theorem pyOfOrdUs_year (t y m d us : Int) (h : pyOfOrdUs t = .ok (y, m, d, us)) : 1 ≤ y ∧ y ≤ 9999 := by
+  by_cases hr : 1 ≤ t / US ∧ t / US ≤ MAXORD
+  · obtain ⟨y', m', d', hok, hm1, hm12, hd1, hd2, hday⟩ := pyOfOrdUs_ok t hr
+    rw [hok] at h
+    simp only [Except.ok.injEq, Prod.mk.injEq] at h
+    obtain ⟨rfl, rfl, rfl, _⟩ := h
+    have b := dayNumC_bounds y' m' d' ⟨hm1, hm12⟩ ⟨hd1, hd2⟩
+    constructor
+    · by_cases hy0 : y' ≤ 0
+      · have := Timeline.daysBeforeYearC_mono (show y' + 1 ≤ 1 by omega)
+        have e1 : daysBeforeYearC 1 = 0 := by decide
+        omega
+      · omega
+    · by_cases hy1 : y' ≥ 10000
+      · have := Timeline.daysBeforeYearC_mono (show 10000 ≤ y' by omega)
+        have e1 : daysBeforeYearC 10000 = 3652059 := by decide
+        unfold MAXORD at hr; omega
+      · omega
+  · rw [pyOfOrdUs_err t hr] at h; cases h
+
+theorem mkCore_year_bound (y m d h mi s us : Int) (ad : Bool) (tz : Option Int) (w : DT)
+    (hw : mkCore y m d h mi s us ad tz = .ok w) : w.year.natAbs ≤ 2 ^ 31 := by
+  have inv := mkCore_ok_inv y m d h mi s us ad tz w hw
+  unfold mkCore at hw
+  by_cases hr : 1 ≤ y ∧ y ≤ 9999
+  · rw [if_pos hr] at hw
+    have hl : isleap y = proxyLeap y := by unfold proxyLeap; rw [if_neg (by omega)]
+    rw [hl, inv.2.2] at hw
+    simp only [Bool.not_true, Bool.false_eq_true, ↓reduceIte] at hw
+    cases ad with
+    | false => simp only [Bool.false_eq_true, ↓reduceIte, Except.ok.injEq] at hw; subst hw; simp only; omega
+    | true =>
+      simp only [↓reduceIte] at hw
+      generalize hp : pyOfOrdUs _ = r at hw
+      cases r with
+      | error e => cases hw
+      | ok q =>
+        obtain ⟨y2, m2, d2, u2⟩ := q
+        simp only [Except.ok.injEq] at hw
+        subst hw
+        have := pyOfOrdUs_year _ _ _ _ _ hp
+        simp only; omega
+  · rw [if_neg hr, if_neg inv.1, if_neg (by omega)] at hw
+    simp only [] at hw
+    rw [inv.2.2] at hw
+    simp only [Bool.not_true, Bool.false_eq_true, ↓reduceIte] at hw
+    cases ad with
+    | false => simp only [Bool.false_eq_true, ↓reduceIte, Except.ok.injEq] at hw; subst hw; exact inv.2.1
+    | true =>
+      simp only [↓reduceIte] at hw
+      generalize hp : pyOfOrdUs _ = r at hw
+      cases r with
+      | error e => cases hw
+      | ok q =>
+        obtain ⟨y2, m2, d2, u2⟩ := q
+        simp only [Except.ok.injEq] at hw
+        subst hw
+        exact inv.2.1
+
+/-- **every value the constructor returns is well formed**: a successful `AbstractDateTime.__init__` (any year, month,
+day, time of day incl. `24:00:00`, timezone within ±14:00) yields a value with a non-zero year of at most 2^31 in
+magnitude, a real calendar date of that (proleptic Gregorian) year and a time inside the day. -/
+theorem mk_valid (y m d h mi s us : Int) (tz : Option Int) (w : DT) (htz : TzOk tz)
+    (hw : mk y m d h mi s us tz = .ok w) : w.Valid ∧ w.year.natAbs ≤ 2 ^ 31 := by
+  unfold mk at hw
+  simp only [] at hw
+  by_cases hroll : ((h == 24 && mi == 0 && s == 0 && us == 0) && m == 12 && d == 31 &&
+      !(decide (0 ≤ y) && decide (y < 9999))) = true
+  · -- 24:00:00 on a 31st of December outside 0..9998: the 1st of January of the next year
+    rw [if_pos hroll] at hw
+    have hb := mkCore_year_bound _ _ _ _ _ _ _ _ _ _ hw
+    have inv := mkCore_ok_inv _ _ _ _ _ _ _ _ _ _ hw
+    have hf := pyFieldsOk_inv _ _ _ _ _ _ _ inv.2.2
+    have hjan : (1 : Int) ≤ 1 ∧ (1 : Int) ≤ monthDays (proxyLeap (if y == -1 then 1 else y + 1)) 1 := by simp [monthDays]
+    rw [mkCore_ok _ 1 1 _ _ _ _ tz inv.1 inv.2.1 (by omega) hjan ⟨hf.2.2.2.2.1, hf.2.2.2.2.2.1⟩
+      ⟨hf.2.2.2.2.2.2.1, hf.2.2.2.2.2.2.2.1⟩ ⟨hf.2.2.2.2.2.2.2.2.1, hf.2.2.2.2.2.2.2.2.2.1⟩
+      ⟨hf.2.2.2.2.2.2.2.2.2.2.1, hf.2.2.2.2.2.2.2.2.2.2.2⟩] at hw
+    simp only [Except.ok.injEq] at hw
+    subst hw
+    refine ⟨⟨inv.1, ⟨by simp [absV], by simp [absV], by simp [absV], by simp [absV, monthLen], ?_, ?_⟩, htz⟩, by simpa using hb⟩
+    · simp only [absV, timeUs]; omega
+    · simp only [absV, timeUs, Timeline.US]; omega
+  · have hroll' : ((h == 24 && mi == 0 && s == 0 && us == 0) && m == 12 && d == 31 &&
+        !(decide (0 ≤ y) && decide (y < 9999))) = false := by simpa using hroll
+    rw [hroll'] at hw
+    simp only [Bool.false_eq_true, ↓reduceIte] at hw
+    have hb := mkCore_year_bound _ _ _ _ _ _ _ _ _ _ hw
+    have inv := mkCore_ok_inv _ _ _ _ _ _ _ _ _ _ hw
+    have hf := pyFieldsOk_inv _ _ _ _ _ _ _ inv.2.2
+    have hmd : 1 ≤ d ∧ d ≤ monthLen (astro y) m := by
+      have := hf.2.2.2.1
+      rw [proxyLeap_eq y inv.1, monthDays_eq _ _ hf.1 hf.2.1] at this
+      exact ⟨hf.2.2.1, this⟩
+    by_cases h24 : (h == 24 && mi == 0 && s == 0 && us == 0) = true
+    · simp only [Bool.and_eq_true, beq_iff_eq] at h24
+      obtain ⟨⟨⟨rfl, rfl⟩, rfl⟩, rfl⟩ := h24
+      have hnext : (m = 12 ∧ d = 31 ∧ (24 : Int) = 24) → (y + 1).natAbs ≤ 2 ^ 31 := by
+        intro ⟨hm12, hd31, _⟩
+        subst hm12 hd31
+        simp at hroll'
+        omega
+      obtain ⟨w', h1, h2, h3⟩ := mk_spec y m d 24 0 0 0 tz inv.1 inv.2.1 hnext ⟨hf.1, hf.2.1⟩ hmd (Or.inr ⟨rfl, rfl, rfl, rfl⟩)
+      have hmk : mk y m d 24 0 0 0 tz = .ok w := by
+        unfold mk; simp only []; rw [hroll']; simp only [Bool.false_eq_true, ↓reduceIte]; exact hw
+      rw [hmk] at h1; cases h1
+      have hv := ofFields_valid (astro y) m d 24 0 0 0 tz ⟨hf.1, hf.2.1⟩ hmd (Or.inr ⟨rfl, rfl, rfl, rfl⟩)
+      rw [← h3] at hv
+      exact ⟨⟨h2, hv.1, by have : w.tz = tz := hv.2; rw [this]; exact htz⟩, hb⟩
+    · have h24' : (h == 24 && mi == 0 && s == 0 && us == 0) = false := by simpa using h24
+      rw [h24'] at hw hf inv
+      simp only [Bool.false_eq_true, ↓reduceIte] at hw hf inv
+      have ht : 0 ≤ h ∧ h ≤ 23 ∧ 0 ≤ mi ∧ mi ≤ 59 ∧ 0 ≤ s ∧ s ≤ 59 ∧ 0 ≤ us ∧ us ≤ 999999 := hf.2.2.2.2
+      obtain ⟨w', h1, h2, h3⟩ := mk_spec y m d h mi s us tz inv.1 inv.2.1 (fun hc => by omega) ⟨hf.1, hf.2.1⟩ hmd (Or.inl ht)
+      have hmk : mk y m d h mi s us tz = .ok w := by
+        unfold mk; simp only []; rw [hroll', h24']; simp only [Bool.false_eq_true, ↓reduceIte]; exact hw
+      rw [hmk] at h1; cases h1
+      have hv := ofFields_valid (astro y) m d h mi s us tz ⟨hf.1, hf.2.1⟩ hmd (Or.inl ht)
+      rw [← h3] at hv
+      exact ⟨⟨h2, hv.1, by have : w.tz = tz := hv.2; rw [this]; exact htz⟩, hb⟩
+
 end EPV.Cal
